@@ -1137,6 +1137,9 @@ def main(ctx):
         "kinds": list(KINDS), "symmetries": 8,
         "crs_pairs": [f"{a}->{b}" for a, b, _ in DPAIRS],
         "to_crs_resolutions_in_steps": [repr(x) for x in TRES] + ["auto"],
+        "to_crs_flags": list(FLAGS),
+        "long_edge_steps": list(LK), "long_edge_directions": [list(d) for d in LDIRS],
+        "long_edge_crs_pairs": [f"{a}->{b} resolution {r}" for a, b, r, _ in LPAIRS],
         "tolerances": {"same-crs geometry": "1e-9*(|coord|+edge length)", "vertex vs pyproj": "1e-9*(|value|+1)",
                        "there-and-back / inverse-mapped": "1e-6*(|value|+...)"},
     }
